@@ -70,27 +70,25 @@ theorem twin_v2sum : VectorPy.v2sum = VectorPyx.v2sum := rfl
 theorem twin_v3distance_rad1 : VectorPy.v3distance_rad1 = VectorPyx.v3distance_rad1 := by
   funext a b; simp only [VectorPy.v3distance_rad1, VectorPyx.v3distance_rad1]; ring
 
-/-- the hand-written C `isclose` of vector.pyx is CPython's `math.isclose` (for the library's tolerances) -/
-private theorem isclose_bool (x y : Rat) :
-    ((decide (pyAbs (y - x) ≤ pyAbs (((4835703278458517 : Rat) / 4835703278458516698824704) * y))
-      || decide (pyAbs (y - x) ≤ pyAbs (((4835703278458517 : Rat) / 4835703278458516698824704) * x)))
-      || decide (pyAbs (y - x) ≤ ((4951760157141521 : Rat) / 4951760157141521099596496896)))
-      = pyIsclose x y ((4835703278458517 : Rat) / 4835703278458516698824704)
-          ((4951760157141521 : Rat) / 4951760157141521099596496896) := by
+private theorem pyAbs_nonneg (a : Rat) : 0 ≤ pyAbs a := by
+  unfold pyAbs; split_ifs <;> linarith
+
+/-- the hand-written C `isclose` of vector.pyx is CPython's `math.isclose`, for every tolerance pair -/
+private theorem isclose_bool (x y rel ab : Rat) :
+    ((decide (pyAbs (y - x) ≤ pyAbs (rel * y)) || decide (pyAbs (y - x) ≤ pyAbs (rel * x)))
+      || decide (pyAbs (y - x) ≤ ab)) = pyIsclose x y rel ab := by
   unfold pyIsclose
   by_cases h : x = y
   · subst h
-    have h0 : pyAbs (x - x) ≤ ((4951760157141521 : Rat) / 4951760157141521099596496896) := by
-      simp [pyAbs]; norm_num
+    have h0 : pyAbs (x - x) ≤ pyAbs (rel * x) := by
+      have : pyAbs (x - x) = 0 := by simp [pyAbs]
+      rw [this]; exact pyAbs_nonneg _
     simp only [decide_true, Bool.true_or, h0, Bool.or_true]
   · simp [h]
 
-private theorem isclose_prop (x y : Rat) :
-    ((pyAbs (y - x) ≤ pyAbs (((4835703278458517 : Rat) / 4835703278458516698824704) * y)
-      ∨ pyAbs (y - x) ≤ pyAbs (((4835703278458517 : Rat) / 4835703278458516698824704) * x))
-      ∨ pyAbs (y - x) ≤ ((4951760157141521 : Rat) / 4951760157141521099596496896))
-      ↔ pyIsclose x y ((4835703278458517 : Rat) / 4835703278458516698824704)
-          ((4951760157141521 : Rat) / 4951760157141521099596496896) = true := by
+private theorem isclose_prop (x y rel ab : Rat) :
+    ((pyAbs (y - x) ≤ pyAbs (rel * y) ∨ pyAbs (y - x) ≤ pyAbs (rel * x)) ∨ pyAbs (y - x) ≤ ab)
+      ↔ pyIsclose x y rel ab = true := by
   rw [← isclose_bool]
   simp only [Bool.or_eq_true, decide_eq_true_eq]
 
@@ -492,49 +490,28 @@ theorem twin_clockwise4 : TwinsPy.clockwise4 = TwinsPyx.clockwise4 := by
   funext a b c d
   simp only [TwinsPy.clockwise4, TwinsPyx.clockwise4, isclose_prop]
 
-/-! ## 4. Kernels where the twins are NOT the same function (found by this check; see known.d/C10.json) -/
+/-! ## 4. Kernels that were NOT twins before the fixes 7e56e0b90 (bool(Vec2)) and 54fb65f8e (intersection_ray_ray_3d) -/
 
-/-- GENUINE TWIN DIFFERENCE: `bool(Vec2)`.  Python: `not self.is_null` (|x|,|y| ≤ 1e-12 counts as null),
-    Cython: `self.x != 0 or self.y != 0`.  Vec2(1e-13, 0) is falsy without and truthy with the C extension. -/
-theorem v2bool_twins_differ : ∃ a : V2, TwinsPy.v2bool a ≠ TwinsPyx.v2bool a :=
-  ⟨⟨1 / 10000000000000, 0⟩, by decide +kernel⟩
+/-- `bool(Vec2)`: both twins are `not is_null` (|x|, |y| ≤ 1e-12 counts as the null vector).  Before the fix the Cython twin
+    tested `x != 0 or y != 0` and Vec2(1e-13, 0) was truthy only with the C extension. -/
+theorem twin_v2bool : TwinsPy.v2bool = TwinsPyx.v2bool := by
+  first
+  | rfl
+  | (funext a; simp only [TwinsPy.v2bool, TwinsPyx.v2bool])
 
--- full-strength statement (false on the unchanged tree, kept visible):
---   theorem twin_v2bool : TwinsPy.v2bool = TwinsPyx.v2bool
-/-- what does hold: the twins agree on the exact null vector and on every vector with a component above the tolerance
-    (and `Vec3.__bool__`, `Vec2.is_null`, `Vec3.is_null` are identical in both twins: `twin_v3bool`, `twin_v2isnull`) -/
-theorem twin_v2bool_partial (a : V2)
-    (h : (a.x = 0 ∧ a.y = 0) ∨ (4951760157141521 : Rat) / 4951760157141521099596496896 < pyAbs a.x
-      ∨ (4951760157141521 : Rat) / 4951760157141521099596496896 < pyAbs a.y) :
-    TwinsPy.v2bool a = TwinsPyx.v2bool a := by
-  simp only [TwinsPy.v2bool, TwinsPyx.v2bool]
-  rcases h with ⟨hx, hy⟩ | h | h
-  · simp [hx, hy, pyAbs]; norm_num
-  · have hx : a.x ≠ 0 := by
-      intro h0; rw [h0] at h; simp [pyAbs] at h; norm_num at h
-    simp [hx, not_le.mpr h]
-  · have hy : a.y ≠ 0 := by
-      intro h0; rw [h0] at h; simp [pyAbs] at h; norm_num at h
-    simp [hy, not_le.mpr h]
+example : TwinsPyx.v2bool ⟨1 / 10000000000000, 0⟩ = false ∧ TwinsPyx.v2bool ⟨1 / 100000000000, 0⟩ = true := by decide +kernel
 
-/-- GENUINE TWIN DIFFERENCE: `intersection_ray_ray_3d`.  Python decides "the rays meet" with
-    `p1.isclose(p2, abs_tol=abs_tol)` (relative tolerance 1e-9), Cython with `v3_isclose(p1, p2, abs_tol, abs_tol)`
-    (the absolute tolerance is ALSO used as relative tolerance).  Two skew rays whose closest points differ by
-    5e-10 give one point in Python and two points with the C extension (default abs_tol = 1e-10): -/
-theorem rayRay_twins_differ :
-    ∃ a b c d tol r1 r2, r1 * r1 = TwinsPy.rayRay_rad1 a b c d tol ∧ r2 * r2 = TwinsPy.rayRay_rad2 a b c d tol r1 ∧
-      TwinsPy.rayRay a b c d tol r1 r2 ≠ TwinsPyx.rayRay a b c d tol r1 r2 :=
-  ⟨⟨1, 0, 0⟩, ⟨1, 1, 0⟩, ⟨1 + 1 / 2000000000, 0, 1⟩, ⟨1 + 1 / 2000000000, 0, 2⟩, 1 / 10000000000, 1, 1,
-    by decide +kernel, by decide +kernel, by decide +kernel⟩
+/-- `intersection_ray_ray_3d`: same exceptions, same parallel verdict, same decision "the rays meet" (relative tolerance 1e-9,
+    absolute tolerance abs_tol) and the same points.  Before the fix the Cython twin used abs_tol also as relative tolerance. -/
+theorem twin_rayRay : TwinsPy.rayRay = TwinsPyx.rayRay := by
+  funext a b c d tol r1 r2
+  simp only [TwinsPy.rayRay, TwinsPyx.rayRay, isclose_prop]
 
--- full-strength statement (false on the unchanged tree, kept visible):
---   theorem twin_rayRay : TwinsPy.rayRay = TwinsPyx.rayRay
-/-- what does hold: same exceptions, same "parallel" verdict and the same closest point on the first ray -/
-theorem twin_rayRay_partial (a b c d : V3) (tol r1 r2 : Rat) :
-    (TwinsPy.rayRay a b c d tol r1 r2).map List.head? = (TwinsPyx.rayRay a b c d tol r1 r2).map List.head?
-    ∧ TwinsPy.rayRay_rad1 = TwinsPyx.rayRay_rad1 ∧ TwinsPy.rayRay_rad2 = TwinsPyx.rayRay_rad2 := by
-  refine ⟨?_, rfl, rfl⟩
-  simp only [TwinsPy.rayRay, TwinsPyx.rayRay]
-  split_ifs <;> simp [Except.map]
+theorem twin_rayRay_rad : TwinsPy.rayRay_rad1 = TwinsPyx.rayRay_rad1 ∧ TwinsPy.rayRay_rad2 = TwinsPyx.rayRay_rad2 := ⟨rfl, rfl⟩
+
+/-- regression witness of the fixed defect: the two skew rays whose closest points are 5e-10 apart give ONE point in both twins now -/
+example : TwinsPyx.rayRay ⟨1, 0, 0⟩ ⟨1, 1, 0⟩ ⟨1 + 1 / 2000000000, 0, 1⟩ ⟨1 + 1 / 2000000000, 0, 2⟩ (1 / 10000000000) 1 1
+    = TwinsPy.rayRay ⟨1, 0, 0⟩ ⟨1, 1, 0⟩ ⟨1 + 1 / 2000000000, 0, 1⟩ ⟨1 + 1 / 2000000000, 0, 2⟩ (1 / 10000000000) 1 1 := by
+  decide +kernel
 
 end EzdxfVerif.Props.C10
